@@ -265,6 +265,110 @@ def _stop_all_sites(F, body, depth=2):
     return res
 
 
+_ARMERS = {}
+
+
+def _timer_arg_may_be(d, name):
+    """the Timer argument descriptor may denote Timer::<name>: every alternative that is not the unit aggregate of ANOTHER
+    Timer variant counts (a variable / parameter / loop element is not known to differ)"""
+    for x in flat(d):
+        if isinstance(x, tuple) and x[0] == 'agg' and '::' in x[2] and x[2].split('::')[-2:-1] == ['Timer'] and not x[2].endswith('Timer::' + name):
+            continue
+        return True
+    return False
+
+
+def _timer_armers(F, name):
+    """ids of the root functions of quinn-proto from which a `TimerTable::set(<may be Timer::name>, ..)` is reachable over
+    resolved crate-local calls (closures attributed to their parent) — unbounded depth"""
+    k = (id(F), name)
+    if k in _ARMERS:
+        return _ARMERS[k]
+    direct, rev = set(), {}
+    for b in F.code_bodies('quinn_proto'):
+        r = F.root_of(b)
+        live = b.live_blocks()
+        for c in b.calls():
+            if c.bb not in live or is_noise(c):
+                continue
+            if c.is_('TimerTable::set') and len(c.args) >= 2 and _timer_arg_may_be(arg_desc(F, c, 1), name):
+                direct.add(r.id)
+            elif c.k in ('item', 'closurecall') and c.f in F.bodies and F.bodies[c.f].crate == 'quinn_proto':
+                rev.setdefault(F.root_of(F.bodies[c.f]).id, set()).add(r.id)
+    reach, stack = set(direct), list(direct)
+    while stack:
+        x = stack.pop()
+        for y in rev.get(x, ()):
+            if y not in reach:
+                reach.add(y)
+                stack.append(y)
+    _ARMERS[k] = reach
+    return reach
+
+
+def _timer_left_armed(F, body, e_bb, name):
+    """Obligation: on EVERY entry -> e_bb -> return path of `body` the LAST operation on Timer::<name> is
+    `<self>.timers.stop(Timer::<name>)` (at least one such stop on the path, and nothing that may arm the timer after the
+    last one).  The stop may therefore stand after the site (`push(Drained); stop(Close)`) or before it
+    (`stop(Close); push(Drained)`): the two statements are independent and the order is not part of the obligation; what
+    is, is that no arming site (TimerTable::set(Timer::<name>) directly or through any crate-local callee, unbounded depth)
+    lies between the stop and the return.  Within a block the statements (the site) precede the terminator (a call).
+    Returns None when the obligation holds, else a reason."""
+    live = body.live_blocks()
+    rets = set(body.return_blocks())
+    S = set()
+    for c in body.calls_to('TimerTable::stop'):
+        if c.bb in live and len(c.args) >= 2 and _self_field(arg_desc(F, c, 0), 'timers'):
+            alts = flat(arg_desc(F, c, 1))
+            if alts and all(isinstance(x, tuple) and x[0] == 'agg' and x[2].endswith('Timer::' + name) for x in alts):
+                S.add(c.bb)
+    S |= {b for b in _stop_all_sites(F, body, 2) if b in live}
+    if not S:
+        return 'no timers.stop(Timer::%s) in %s' % (name, body.short)
+    armers = _timer_armers(F, name)
+    def arms(c, own):
+        if c.is_('TimerTable::set') and len(c.args) >= 2 and _timer_arg_may_be(arg_desc(F, c, 1), name):
+            return True
+        if c.k in ('item', 'closurecall') and c.f in F.bodies and F.bodies[c.f].crate == 'quinn_proto':
+            t = F.bodies[c.f]
+            if t.kind == 'fn' or F.root_of(t).id != F.root_of(body).id:
+                return F.root_of(t).id in armers
+            return t.id in own
+        return False
+    # closures defined in `body` that may arm the timer (fixed point over closures calling closures)
+    own = set()
+    changed = True
+    while changed:
+        changed = False
+        for x in F.closures_of(F.root_of(body)):
+            if x.id not in own and any(c.bb in x.live_blocks() and not is_noise(c) and (arms(c, own) or any(cb.id in own for cb in closure_args(F, c))) for c in x.calls()):
+                own.add(x.id)
+                changed = True
+    A = set()
+    for c in body.calls():
+        if c.bb not in live or is_noise(c):
+            continue
+        if arms(c, own) or (own and any(cb.id in own for cb in closure_args(F, c))):
+            A.add(c.bb)
+            S.discard(c.bb)      # a callee that stops every timer but may also arm this one is not a stop
+    if not S:
+        return 'no site of %s leaves Timer::%s stopped' % (body.short, name)
+    after = [] if e_bb in S else list(body.succ[e_bb])
+    tail_free = path_avoiding(body, after, rets, S) if after else None     # site -> return without a stop
+    if tail_free is not None and path_avoiding(body, [0], [e_bb], S) is not None:
+        return 'a path through the site passes no timers.stop(Timer::%s): ..%s' % (name, fmt_path(body, tail_free))
+    past = body.reachable_from(e_bb)
+    for a in sorted(A):
+        to_ret = path_avoiding(body, list(body.succ[a]), rets, S)
+        if to_ret is None:
+            continue                                   # a stop always follows this arming site
+        if a == e_bb or a in past:
+            return 'the timer may be armed again after the site without a later stop: %s' % fmt_path(body, [a] + to_ret)
+        if tail_free is not None and path_avoiding(body, list(body.succ[a]), [e_bb], S) is not None:
+            return 'the timer may be armed before the site and is not stopped afterwards: %s' % fmt_path(body, [a] + to_ret)
+    return None
+
+
 def _endpoint_seed(F, en):
     """Endpoint::new: on the Some edge of the branch on `config.rng_seed` the generator stored in Endpoint.rng is
     from_seed(<that payload>); the OS-seeded alternative is confined to the None edge."""
@@ -537,10 +641,11 @@ def rule_d(ctx):
     hp = ctx.pfn('Connection::handle_packet')
     ev = [c for c in constructions(F, 'EndpointEventInner', 'Drained', crate='quinn_proto') if F.root_of(c.body).id == hp.id]
     for e in ev:
-        stp = [c for c in hp.calls_to('TimerTable::stop') if C08.timer_const(arg_desc(F, c, 1), 'Close')]
-        okc = bool(stp) and must_follow(F, hp, e.bb, ['TimerTable::stop'], depth=0) is None
-        ctx.check(okc, 'd', 'no_timer_left_on_drained_connection', hp, e.where(), 'timers.stop(Timer::Close) follows the transition to Drained',
-                  'a connection drained by a packet (stateless reset while closing) keeps its Close timer: poll_timeout still reports a deadline and servicing it emits a second Drained')
+        # on every path through the Drained push the last operation on Timer::Close is self.timers.stop(Timer::Close): the stop
+        # may stand before or after the (independent) push, but nothing that may arm the timer lies between it and the return
+        why = _timer_left_armed(F, hp, e.bb, 'Close')
+        ctx.check(why is None, 'd', 'no_timer_left_on_drained_connection', hp, e.where(), 'on every path emitting Drained, timers.stop(Timer::Close) is the last operation on the Close timer',
+                  'a connection drained by a packet (stateless reset while closing) keeps its Close timer: poll_timeout still reports a deadline and servicing it emits a second Drained (%s)' % why)
     k = ctx.pfn('Connection::kill')
     # every path through kill passes a site that stops EVERY timer (loop over Timer::VALUES calling timers.stop(element) in each
     # iteration), directly or inside a callee such as close_common — the callee's body is checked, its name is not trusted
